@@ -29,6 +29,8 @@ def build_creation_facts():
     shutil.copy(os.path.join(repo, 'Cargo.lock'), os.path.join(work, 'Cargo.lock'))
     th = tree_hash('creation', repo)
     facts = os.path.join(CACHE, 'facts-creation-%s.json' % th)
+    if os.path.realpath(repo) != '/repo':
+        facts = os.path.join(repo, '.kvfacts-creation-%s.json' % th)
     lock = open(os.path.join(CACHE, 'lock-creation'), 'w')
     fcntl.flock(lock, fcntl.LOCK_EX)
     try:
